@@ -13,6 +13,11 @@ import common  # noqa: E402
 from common import Infra, LeanSide, Outcome, say  # noqa: E402
 
 
+import faulthandler
+import signal
+faulthandler.register(signal.SIGUSR1, all_threads=True)
+
+
 def main():
     ap = argparse.ArgumentParser()
     ap.add_argument("prop")
